@@ -200,7 +200,7 @@ fn canon_field_shorthand(v: Vec<T>) -> Vec<T> {
             && v[i + 1].is(":")
             && v[i + 2] == v[i]
             && i > 0
-            && (v[i - 1].is("{") || v[i - 1].is(","))
+            && (v[i - 1].is("{") || v[i - 1].is(",") || v[i - 1].is("]"))
             && v.get(i + 3).map(|t| t.is(",") || t.is("}")).unwrap_or(false)
         {
             out.push(v[i].clone());
@@ -288,8 +288,13 @@ fn canon_doc_attrs(v: Vec<T>, ignore: bool) -> Vec<T> {
                 let body = body.replace("\\\"", "\"").replace("\\'", "'").replace("\\\\", "\\").trim().to_owned();
                 if ignore {
                     out.push(T { k: K::Doc(inner), s: String::new() });
-                } else if !body.is_empty() {
-                    out.push(T { k: K::Doc(inner), s: body });
+                } else {
+                    for l in body.lines() {
+                        let l = l.trim();
+                        if !l.is_empty() {
+                            out.push(T { k: K::Doc(inner), s: l.to_owned() });
+                        }
+                    }
                 }
                 i = j + 5;
                 continue;
@@ -306,7 +311,9 @@ fn canon_doc_words(v: Vec<T>) -> Vec<T> {
     let mut out: Vec<T> = vec![];
     for t in v {
         if let K::Doc(inner) = t.k {
-            let words: Vec<&str> = t.s.split_whitespace().collect();
+            // markdown block-quote markers are repeated on every wrapped line
+            let line = t.s.trim_start_matches(|c: char| c == '>' || c.is_whitespace());
+            let words: Vec<&str> = line.split_whitespace().collect();
             if let Some(last) = out.last_mut() {
                 if last.k == K::Doc(inner) {
                     if !last.s.is_empty() && !words.is_empty() {
@@ -324,7 +331,7 @@ fn canon_doc_words(v: Vec<T>) -> Vec<T> {
     // list markers and wrapped punctuation may be re-flowed: compare letters and digits only
     for t in out.iter_mut() {
         if matches!(t.k, K::Doc(_)) {
-            t.s = t.s.chars().filter(|c| !c.is_whitespace()).collect();
+            t.s = t.s.chars().filter(|c| !c.is_whitespace() && *c != '>').collect();
         }
     }
     out
@@ -669,7 +676,7 @@ pub fn canonical(src: &str, o: &CmpOpts) -> Vec<T> {
     if o.normalize_doc_attributes {
         v = canon_doc_attrs(v, o.ignore_doc_content);
     }
-    if o.doc_words {
+    if o.doc_words || o.ignore_doc_content {
         v = canon_doc_words(v);
     }
     if o.use_try_shorthand {
@@ -1084,7 +1091,7 @@ pub fn compare_tokens(a: &[T], b: &[T], o: &CmpOpts) -> Result<CmpStats, Mismatc
                     break;
                 }
             }
-            if t.is("|") && k >= 1 && !s.is(k + 1, "|") && (s.prev_is(k, "{") || s.prev_is(k, ",") || s.prev_is(k, "}") || s.prev_is(k, "]")) {
+            if t.is("|") && k >= 1 && !s.is(k + 1, "|") && (s.prev_is(k, "{") || s.prev_is(k, ",") || s.prev_is(k, "}") || s.prev_is(k, "]") || matches!(s.v[k - 1].k, K::Doc(_))) {
                 edit!("leading-pipe");
                 advance(side, &mut i, &mut j, 1);
                 progressed = true;
